@@ -408,10 +408,13 @@ def history_oracle(c, stats=None):
         val = dec(tc, s["val"])
         if op in ("set", "iop", "resize", "alias", "copy", "fromfile", "badiop", "view", "npview") and A is None:
             continue
-        if op == "view":
-            views.append(memoryview(A))
-        elif op == "npview":
-            views.append(np.asarray(A) if s["k"] % 2 else np.array(memoryview(A), copy=False))
+        if op in ("view", "npview"):
+            v = memoryview(A) if op == "view" else (np.asarray(A) if s["k"] % 2 else np.array(memoryview(A), copy=False))
+            isz = {"i": 8, "d": 8, "z": 16}[tc]
+            if tuple(v.shape) != A.size or tuple(v.strides) != (isz, isz * A.size[0]):
+                raise Violation("a buffer exported now has shape %r strides %r, the matrix has size %r (history %r, %d other export(s) held)"
+                                % (tuple(v.shape), tuple(v.strides), A.size, done, len(views)))
+            views.append(v)
         elif op == "set":
             k = s["k"] % len(A)
             A[k] = val
